@@ -147,6 +147,7 @@ type reply struct {
 	OK         bool               `json:"ok"`
 	Nontrivial bool               `json:"nt"`
 	Viol       []common.Violation `json:"viol"`
+	Extra      []string           `json:"extra,omitempty"` // further Coq cases of the same request (CListInto)
 }
 
 // child side: decode one request, state the Go-level predicates, answer with the Coq case
@@ -189,6 +190,9 @@ func runReqs() {
 		}
 		c.Tally(name + "/" + q.kind + "/" + map[bool]string{true: "ok", false: "err"}[rp.OK])
 		c.Case(rp.Coq, map[string]interface{}{"kind": name + "/" + q.kind, "bytes": trunc(common.Hex(q.b))}, q.mode+common.Hex(q.b), rp.Nontrivial)
+		for k, x := range rp.Extra {
+			c.Case(x, map[string]interface{}{"kind": name + "-into-used-destination/" + q.kind, "bytes": trunc(common.Hex(q.b)), "case": strings.SplitN(x, " [", 2)[0]}, fmt.Sprintf("I%d%s", k, common.Hex(q.b)), rp.Nontrivial)
+		}
 	}
 }
 
@@ -264,6 +268,12 @@ func doParse(b []byte, rp *reply, viol func(site, what string)) {
 			}
 		}
 	}
+	if ok {
+		elemChecks(tx, viol)
+	}
+	if len(b) > 4 {
+		varintReuse(b[4:], viol)
+	}
 	_, e3 := bt.NewTxFromBytes(b)
 	fbOK := e3 == nil
 	if fbOK != (ok && used == len(b)) {
@@ -322,8 +332,247 @@ func doList(b []byte, rp *reply, viol func(site, what string)) {
 			viol("Txs.ReadFrom/source-not-consumed-to-exactly-the-end-of-the-list", fmt.Sprintf("%d bytes left, expected %d", src.Len(), len(b)-int(n)))
 		}
 	}
+	rp.Extra = listInto(b, ok, n, cnt, all, err, viol)
+	varintReuse(b, viol)
 	rp.OK, rp.Nontrivial = ok, ok && cnt > 0
 	rp.Coq = fmt.Sprintf("CList %s %s %d %d %s", common.CoqBytes(b), common.CoqBool(ok), n, cnt, common.CoqStr(common.Sha256Hex(all)))
+}
+
+// ---- destinations with a past ---------------------------------------------------------------------------------------
+// Every ReadFrom of the codec (Txs, Tx, Input, Output, VarInt) writes into an object the caller supplies. What that
+// object holds afterwards is a function of the bytes read, never of what it held before: the same bytes read into a
+// fresh destination and into destinations with a past (long-lived ones used for every earlier request of this run, and
+// ones populated on the spot: empty with spare capacity, full, partly filled, holding nil elements) must agree.
+
+// reusedTxs: long-lived lists every list request is also read into (one per reader kind), as a block-reading loop does
+var reusedTxs [3]bt.Txs
+var reusedTxsPast [3]string
+
+// sentinelTx: a transaction that is not part of any generated list (version 0x53544e4c), parsed anew for every use
+func sentinelTx(tag byte) *bt.Tx {
+	b := []byte{0x4c, 0x4e, 0x54, 0x53, 1}
+	b = append(b, bytes.Repeat([]byte{0x77}, 32)...)
+	b = append(b, tag, 0, 0, 0, 2, 0x51, tag, 0xfe, 0xff, 0xff, 0xff, 1, 5, 0, 0, 0, 0, 0, 0, 0, 2, 0x6a, tag, 9, 0, 0, 0)
+	if t, err := bt.NewTxFromBytes(b); err == nil {
+		return t
+	}
+	return &bt.Tx{Version: 0x53544e4c, LockTime: uint32(tag)}
+}
+
+func listInto(b []byte, ok bool, n0 int64, cnt int, all []byte, err0 error, viol func(site, what string)) (coq []string) {
+	type dest struct {
+		past string
+		tt   *bt.Txs
+		rd   io.Reader
+		long int // index of the long-lived destination, -1: populated on the spot, -2: the same and also a Coq case
+	}
+	fresh := func(t bt.Txs) *bt.Txs { return &t }
+	dests := []dest{
+		{"empty, capacity 4", fresh(make(bt.Txs, 0, 4)), bytes.NewReader(b), -1},
+		{"2 transactions, capacity 2", fresh(bt.Txs{sentinelTx(1), sentinelTx(2)}), bytes.NewReader(b), -2},
+		{"1 transaction, capacity 8", fresh(append(make(bt.Txs, 0, 8), sentinelTx(3))), bytes.NewReader(b), -1},
+		{"5 transactions of which 2 nil, capacity 6", fresh(append(make(bt.Txs, 0, 6), sentinelTx(4), nil, sentinelTx(5), nil, sentinelTx(6))), plainReader{bytes.NewReader(b)}, -2},
+		{"long-lived, bytes.Reader; before: " + reusedTxsPast[0], &reusedTxs[0], bytes.NewReader(b), 0},
+		{"long-lived, plain reader; before: " + reusedTxsPast[1], &reusedTxs[1], plainReader{bytes.NewReader(b)}, 1},
+		{"long-lived, one byte at a time; before: " + reusedTxsPast[2], &reusedTxs[2], bufio.NewReaderSize(iotest.OneByteReader(bytes.NewReader(b)), 16), 2},
+	}
+	for _, d := range dests {
+		var n int64
+		var e error
+		held := len(*d.tt)
+		p, msg := common.Safely(func() { n, e = d.tt.ReadFrom(d.rd) })
+		if d.long == -2 && !p {
+			// the model with the destination explicit (model/TxsInto.v) on the same bytes
+			after := 0
+			if e == nil {
+				after = len(*d.tt)
+			}
+			coq = append(coq, fmt.Sprintf("CListInto %d %s %s %d %d", held, common.CoqBytes(b), common.CoqBool(e == nil), n, after))
+		}
+		if d.long >= 0 {
+			if p {
+				reusedTxs[d.long] = nil
+			}
+			reusedTxsPast[d.long] = fmt.Sprintf("%d transactions (last read ok=%v)", len(reusedTxs[d.long]), e == nil && !p)
+		}
+		if p {
+			viol("Txs.ReadFrom/panic", "destination ("+d.past+"): "+msg)
+			continue
+		}
+		if (e == nil) != ok {
+			viol("Txs.ReadFrom/verdict-depends-on-what-the-destination-held-before", fmt.Sprintf("destination (%s): err %v; fresh destination: err %v", d.past, e, err0))
+			continue
+		}
+		if !ok {
+			continue
+		}
+		var got []byte
+		nilElem := false
+		for _, t := range *d.tt {
+			if t == nil {
+				nilElem = true
+				continue
+			}
+			got = append(got, t.ExtendedBytes()...)
+		}
+		if n != n0 || len(*d.tt) != cnt || nilElem || !bytes.Equal(got, all) {
+			viol("Txs.ReadFrom/result-depends-on-what-the-destination-held-before", fmt.Sprintf("destination (%s): read %d bytes, holds %d transactions %s; a fresh destination: read %d bytes, holds %d transactions %s", d.past, n, len(*d.tt), trunc(common.Hex(got)), n0, cnt, trunc(common.Hex(all))))
+		}
+	}
+	return coq
+}
+
+// own wire form of the elements (not the library's serialiser)
+func ownVarint(n uint64) []byte {
+	switch {
+	case n < 0xfd:
+		return []byte{byte(n)}
+	case n <= 0xffff:
+		return varintNonMinimal(n, 3)
+	case n <= 0xffffffff:
+		return varintNonMinimal(n, 5)
+	}
+	return varintNonMinimal(n, 9)
+}
+
+func le(v uint64, k int) []byte {
+	b := make([]byte, 8)
+	binary.LittleEndian.PutUint64(b, v)
+	return b[:k]
+}
+
+func inWire(in *bt.Input, ext bool) []byte {
+	id := in.PreviousTxID()
+	b := make([]byte, 0, 64)
+	for i := len(id) - 1; i >= 0; i-- {
+		b = append(b, id[i])
+	}
+	b = append(b, le(uint64(in.PreviousTxOutIndex), 4)...)
+	var us []byte
+	if in.UnlockingScript != nil {
+		us = *in.UnlockingScript
+	}
+	b = append(append(b, ownVarint(uint64(len(us)))...), us...)
+	b = append(b, le(uint64(in.SequenceNumber), 4)...)
+	if ext {
+		var ps []byte
+		if in.PreviousTxScript != nil {
+			ps = *in.PreviousTxScript
+		}
+		b = append(b, le(in.PreviousTxSatoshis, 8)...)
+		b = append(append(b, ownVarint(uint64(len(ps)))...), ps...)
+	}
+	return b
+}
+
+func outWire(o *bt.Output) []byte {
+	var ls []byte
+	if o.LockingScript != nil {
+		ls = *o.LockingScript
+	}
+	return append(append(le(o.Satoshis, 8), ownVarint(uint64(len(ls)))...), ls...)
+}
+
+// long-lived element destinations: one Input that alternately receives standard and extended inputs, one Output
+var reusedIn = &bt.Input{}
+var reusedOut = &bt.Output{}
+var reusedVI bt.VarInt
+
+// elemChecks: the inputs and outputs of an accepted transaction, each read on its own through Input.ReadFrom /
+// Input.ReadFromExtended / Output.ReadFrom into a fresh and into the long-lived element: exact consumption, the element
+// read equals the element of the transaction, and the long-lived one equals the fresh one in every field
+func elemChecks(tx *bt.Tx, viol func(site, what string)) {
+	pick := func(n int) []int {
+		if n <= 4 {
+			idx := make([]int, n)
+			for i := range idx {
+				idx[i] = i
+			}
+			return idx
+		}
+		return []int{0, 1, n - 2, n - 1}
+	}
+	tail := []byte{0xde, 0xad, 0xbe}
+	for _, i := range pick(len(tx.Inputs)) {
+		in := tx.Inputs[i]
+		if in == nil {
+			continue
+		}
+		for _, ext := range []bool{false, true} {
+			w := inWire(in, ext)
+			name := map[bool]string{false: "Input.ReadFrom", true: "Input.ReadFromExtended"}[ext]
+			read := func(dst *bt.Input) (n int64, e error, left int) {
+				src := bytes.NewReader(append(append([]byte{}, w...), tail...))
+				if ext {
+					n, e = dst.ReadFromExtended(src)
+				} else {
+					n, e = dst.ReadFrom(src)
+				}
+				return n, e, src.Len()
+			}
+			f := &bt.Input{}
+			var nf, nr int64
+			var ef, er error
+			var lf int
+			if p, msg := common.Safely(func() { nf, ef, lf = read(f); nr, er, _ = read(reusedIn) }); p {
+				viol(name+"/panic", msg+" on "+trunc(common.Hex(w)))
+				reusedIn = &bt.Input{}
+				continue
+			}
+			if ef != nil || int(nf) != len(w) || lf != len(tail) || !bytes.Equal(inWire(f, ext), w) {
+				viol(name+"/element-roundtrip", fmt.Sprintf("input %d of the accepted transaction, on its own %s: err %v, read %d, %d bytes left of %d that follow, holds %s", i, trunc(common.Hex(w)), ef, nf, lf, len(tail), trunc(common.Hex(inWire(f, ext)))))
+				continue
+			}
+			if er != nil || nr != nf || !bytes.Equal(inWire(reusedIn, true), inWire(f, true)) {
+				viol(name+"/result-depends-on-what-the-object-held-before", fmt.Sprintf("input bytes %s: long-lived Input err %v, read %d, holds (extended form) %s; fresh Input read %d, holds %s", trunc(common.Hex(w)), er, nr, trunc(common.Hex(inWire(reusedIn, true))), nf, trunc(common.Hex(inWire(f, true)))))
+			}
+		}
+	}
+	for _, i := range pick(len(tx.Outputs)) {
+		o := tx.Outputs[i]
+		if o == nil {
+			continue
+		}
+		w := outWire(o)
+		read := func(dst *bt.Output) (int64, error, int) {
+			src := bytes.NewReader(append(append([]byte{}, w...), tail...))
+			n, e := dst.ReadFrom(src)
+			return n, e, src.Len()
+		}
+		f := &bt.Output{}
+		var nf, nr int64
+		var ef, er error
+		var lf int
+		if p, msg := common.Safely(func() { nf, ef, lf = read(f); nr, er, _ = read(reusedOut) }); p {
+			viol("Output.ReadFrom/panic", msg+" on "+trunc(common.Hex(w)))
+			reusedOut = &bt.Output{}
+			continue
+		}
+		if ef != nil || int(nf) != len(w) || lf != len(tail) || !bytes.Equal(outWire(f), w) {
+			viol("Output.ReadFrom/element-roundtrip", fmt.Sprintf("output %d of the accepted transaction, on its own %s: err %v, read %d, %d bytes left of %d that follow, holds %s", i, trunc(common.Hex(w)), ef, nf, lf, len(tail), trunc(common.Hex(outWire(f)))))
+			continue
+		}
+		if er != nil || nr != nf || !bytes.Equal(outWire(reusedOut), outWire(f)) {
+			viol("Output.ReadFrom/result-depends-on-what-the-object-held-before", fmt.Sprintf("output bytes %s: long-lived Output err %v, read %d, holds %s; fresh Output read %d, holds %s", trunc(common.Hex(w)), er, nr, trunc(common.Hex(outWire(reusedOut))), nf, trunc(common.Hex(outWire(f)))))
+		}
+	}
+}
+
+// varintReuse: the length prefix at the head of b read into a fresh and into the long-lived VarInt
+func varintReuse(b []byte, viol func(site, what string)) {
+	if len(b) > 9 {
+		b = b[:9]
+	}
+	var f bt.VarInt
+	var nf, nr int64
+	var ef, er error
+	if p, msg := common.Safely(func() { nf, ef = f.ReadFrom(bytes.NewReader(b)); nr, er = reusedVI.ReadFrom(bytes.NewReader(b)) }); p {
+		viol("VarInt.ReadFrom/panic", msg+" on "+common.Hex(b))
+		return
+	}
+	if (ef == nil) != (er == nil) || nf != nr || (ef == nil && f != reusedVI) {
+		viol("VarInt.ReadFrom/result-depends-on-what-the-object-held-before", fmt.Sprintf("bytes %x: long-lived VarInt err %v, read %d, value %d; fresh VarInt err %v, read %d, value %d", b, er, nr, uint64(reusedVI), ef, nf, uint64(f)))
+	}
 }
 
 func varintNonMinimal(v uint64, class int) []byte {
@@ -528,7 +777,21 @@ func main() {
 		}
 		listCase(kind, append(bt.VarInt(cnt).Bytes(), body...))
 	}
+	// consecutive valid lists of shrinking and growing length, the empty list among them (a block-reading loop that keeps
+	// one bt.Txs variable: each read must leave exactly the transactions of the bytes just read)
+	for _, k := range []int{3, 1, 0, 2, 0, 0, 1} {
+		var body []byte
+		for j := 0; j < k; j++ {
+			tx := txgen.Build(txgen.Gen(r, false))
+			if (j+k)%2 == 0 {
+				body = append(body, tx.Bytes()...)
+			} else {
+				body = append(body, tx.ExtendedBytes()...)
+			}
+		}
+		listCase("consecutive", append(bt.VarInt(uint64(k)).Bytes(), append(body, r.Bytes(k)...)...))
+	}
 	runReqs()
-	c.Stats.Rule = "structured generator (boundary field values, script lengths {0,1,2,3,25,75,76,107,252,253,254,300,65535,65536,70000}, counts {0..3,252,253,254,300}) -> build cases; byte-level stream: valid/concatenated/truncated(every offset of one tx)/trailing/bit-flipped/random/hostile-length/non-minimal-varint-in-every-position/counts 2^62..2^64-1 in every count and length position followed by a complete transaction for count zero, and counted lists; every parse request is also read through Tx.ReadFrom into long-lived transaction objects (plain, one-byte-at-a-time and data-with-EOF readers) whose result must not depend on what they held before. distinct = distinct input bytes; non-trivial = build cases with at least one input or output, parse cases the decoder accepts, lists with at least one tx"
+	c.Stats.Rule = "structured generator (boundary field values, script lengths {0,1,2,3,25,75,76,107,252,253,254,300,65535,65536,70000}, counts {0..3,252,253,254,300}) -> build cases; byte-level stream: valid/concatenated/truncated(every offset of one tx)/trailing/bit-flipped/random/hostile-length/non-minimal-varint-in-every-position/counts 2^62..2^64-1 in every count and length position followed by a complete transaction for count zero, and counted lists; every parse request is also read through Tx.ReadFrom into long-lived transaction objects (plain, one-byte-at-a-time and data-with-EOF readers) whose result must not depend on what they held before; every list request is also read through Txs.ReadFrom into destinations with a past (three long-lived lists, one per reader kind, and four populated on the spot: empty with spare capacity, full, partly filled, holding nil elements) and must leave exactly what a fresh destination holds; every input / output of an accepted transaction is read on its own through Input.ReadFrom / ReadFromExtended / Output.ReadFrom into a fresh and a long-lived element (exact consumption, equal to the element, long-lived = fresh), and the leading length prefix into a fresh and a long-lived VarInt. distinct = distinct input bytes; non-trivial = build cases with at least one input or output, parse cases the decoder accepts, lists with at least one tx"
 	c.Finish()
 }
